@@ -1,6 +1,9 @@
 package jet
 
-import "reflect"
+import (
+	"io"
+	"reflect"
+)
 
 // ---- C01: every rendered value is escaped exactly once; only SafeWriters bypass ----
 
@@ -308,10 +311,18 @@ func H_C01_escaperFollowsSet() { H_C10_twoSets() }
 //
 //gosym:reach rendered
 func H_C01_writerCommands() {
-	sc := ndChoice("scenario", 5)
+	sc := ndChoice("scenario", 8)
 	esc := ndChoice("esc", 3)
-	w := []string{"raw", "unsafe", "safeHtml", "mark"}[ndChoice("writer", 4)]
-	x := ndName("x", 2)
+	wi := 0
+	if sc <= 1 {
+		wi = ndChoice("writer", 4) // the failing writer command's own writer only matters there
+	}
+	w := []string{"raw", "unsafe", "safeHtml", "mark"}[wi]
+	xn := 2
+	if sc == 7 {
+		xn = 1 // the json summary concretises its operand: one byte
+	}
+	x := ndName("x", xn)
 	set := hxSet(c01Opts(esc),
 		"/r.jet", `[{{ "<c>" | raw }}]`,
 		"/e.jet", `{{ "<d>" | raw }}{{ return "<v>" }}`,
@@ -322,6 +333,9 @@ func H_C01_writerCommands() {
 		"/args2.jet", `{{ safeHtml: x, exec("/e.jet"), x }}`,
 		"/args3.jet", `{{ import "/lib.jet" }}{{ safeHtml: "<a>", yb(), x }}`,
 		"/plain.jet", `<{{ x }}>`,
+		"/param.jet", `{{ block cell(wr=raw, v="<hr>") }}{{ v | wr }}{{ end }}|{{ yield cell(wr=safeHtml, v=x) }}|{{ yield cell(wr=raw, v=x) }}`,
+		"/bound.jet", `<{{ x | wv }}>`,
+		"/json.jet", `<{{ x | writeJson }}>{{ writeJson(x) }}`,
 	)
 	vars := func() VarMap {
 		v := make(VarMap)
@@ -354,9 +368,38 @@ func H_C01_writerCommands() {
 	case 3:
 		out, err = hxExec(set, "/args2.jet", vars(), nil)
 		want = h + "&lt;v&gt;" + h
-	default:
+	case 4:
 		out, err = hxExec(set, "/args3.jet", vars(), nil)
 		want = "&lt;a&gt;(<y>)" + h
+	case 5:
+		// the writer is a block parameter: each yield names its own
+		out, err = hxExec(set, "/param.jet", vars(), nil)
+		want = "<hr>|" + h + "|" + x
+	case 6:
+		// the same piped command node with the name bound to different things in
+		// successive executions: a SafeWriter, another SafeWriter, an ordinary function
+		vfAssume(x != "") // (a writer is not invoked for an empty value)
+		v1 := vars()
+		v1.SetWriter("wv", func(wr io.Writer, b []byte) { wr.Write(b) })
+		hxExec(set, "/bound.jet", v1, nil)
+		v2 := vars()
+		if ndBool("thenFunc") {
+			v2.Set("wv", func(s string) string { return "f" + s })
+			out, err = hxExec(set, "/bound.jet", v2, nil)
+			want = "<" + c01Want(esc, "f"+x) + ">"
+		} else {
+			v2.SetWriter("wv", hxMark)
+			out, err = hxExec(set, "/bound.jet", v2, nil)
+			want = "<(#" + x + "#)>"
+		}
+	default:
+		// writeJson renders through its own Renderer: data-derived <, > and & never reach
+		// the output raw (printable ASCII data)
+		for i := 0; i < len(x); i++ {
+			vfAssume(x[i] >= 0x20 && x[i] < 0x7f)
+		}
+		out, err = hxExec(set, "/json.jet", vars(), nil)
+		want = "<" + c14JSONString(x) + "\n>" + c14JSONString(x) + "\n"
 	}
 	vfReach("rendered")
 	vfAssert(err == nil, "renders")
